@@ -121,7 +121,7 @@ def handle (j : Json) : Except String Json := do
       let rounds ← listOf (listOf natOf) (← fld j "rounds")
       let ord : Nat → List Nat → List Nat := fun r l => ordOf ((rounds[49 - r]?).getD []) l
       pure (jResult (flush H ord bfuel s))
-  | "flushN" =>
+  | "flushN" | "entityFlush" =>
       -- orders = [[n, [objects…]], …]: the statement order observed for the round whose save loop starts when the trace has n events
       let orders ← listOf (fun e => do
         match e with
@@ -129,10 +129,11 @@ def handle (j : Json) : Except String Json := do
         | _ => throw "order: [n, [..]] expected") (← fld j "orders")
       let ord : State → List Nat → List Nat := fun st l =>
         ordOf (((orders.find? (fun e => e.1 == st.trace.length)).map (·.2)).getD []) l
-      pure (jResult (flushN H ord bfuel (← argNat j "depth") s))
-  | "entityFlush" =>
-      let o ← argNat j "obj"
-      -- the references are part of the state ("refs" of the state object); the scan and the save order are computed by the model
-      pure (jResult (entityFlushRefs H bfuel s o))
+      let depth ← argNat j "depth"
+      if op == "flushN" then pure (jResult (flushN H ord bfuel depth s))
+      else
+        -- obj.flush(): references are part of the state; scan and save order are computed by the model; queries inside its after_*
+        -- hooks flush the cache recursively
+        pure (jResult (entityFlushRefsN H ord bfuel depth s (← argNat j "obj")))
   | _ => throw s!"unknown op {op}"
 end PonyVerif.Drive.C33
